@@ -77,6 +77,14 @@ CHECKS = {
    technique="Recorded csolve + evaluations of PPSpline<f64/Dual/Dual2> validated by TLC: collocation rows (interpolation and end derivative conditions) recomputed from the logged coefficients with DualAlgebra, every evaluation = sum c_i D^m B_i(x) for the 3x3 spline-type x abscissa-type table (two cells must be refused), polynomial reproduction, unit-data sensitivities, mismatched counts rejected",
    text="Seeded scenarios over orders 2..6 and four site layouts (incl. natural / clamped cubic with asymmetric end conditions and least squares); the basis oracle is C14's model-checked definition.",
    note="Model part is C14's basis model (the solved-spline layer is validated, not exhaustively enumerated); simple interior knots."),
+ "C16": dict(engine="persist", cat="model_checking", design="5/C16",
+   technique="Save/load protocol as a TLC-checked state machine (Save, Mutate, Load, Resave over an abstract universe incl. the rebuild-on-load types; Load(Save(o)) = Canon(o), Canon idempotent, Save-Load-Save = Save); recorded round trips of every serialisable type x {JSON, tagged from_json, bincode} with random finite bit-pattern doubles validated by TLC: projection after = Canon(projection before) bit for bit, the library's == true, FX markets compared at order 1 with rates agreeing in any state",
+   text="The protocol (what is stored, what is rebuilt, at which order, which equality) is model-checked; the float-text path is sampled with random 64-bit patterns (subnormals, -0.0, 17-digit mantissas), which is what exposed the non-round-tripping JSON float parser (fixed).",
+   note="Encode/decode fidelity of third-party parsers is sampled, not enumerated; NaN / infinities are outside the property."),
+ "C20": dict(engine="persist", cat="fault_enumeration", design="5/C20",
+   technique="Fault enumeration judged by TLC: every single mutation of one valid tagged JSON document per type (outcome must be Err, or Ok with Persist.tla's shape invariants and a usable object - never a panic), constructor argument grids against the specified outcome class, every NamedCal token string, and the calendar engine's date-arithmetic traces (i8 extremes, month offsets, roll days 1-31) validated for totality and value against Calendar.tla; MC_Persist model-checks that a validating Load maps every mutated document to Err or a well-shaped object",
+   text="The faults are the enumerated malformed inputs; TLC decides each recorded outcome. Genuine defects found: four repaired (add_days(-128), load-time panics, pivot-search panic, see known_findings.txt) and one family recorded as known findings (derived Deserialize accepts shape-violating documents).",
+   note="A panic is observed through catch_unwind with an initialised interpreter; a hang is reported by a watchdog; double mutations are not enumerated."),
 }
 
 PENDING = {
@@ -112,6 +120,8 @@ ENGINES = [
       serves_properties=["C13"], kind_free_text="exact-rational TLA+ model of Gaussian elimination checked by TLC + residual validation of the real solvers"),
  dict(name="spline", path="spec/BSpline.tla spec/MC_BSpline.tla spec/Trace_BSpline.tla harness/src/spline.rs lib/checks_spline.py",
       serves_properties=["C14", "C15"], kind_free_text="declarative piecewise-polynomial B-spline basis checked by TLC + validation of recorded basis values and solved splines"),
+ dict(name="persist", path="spec/Persist.tla spec/MC_Persist.tla spec/Trace_Persist.tla harness/src/persist.rs lib/checks_persist.py",
+      serves_properties=["C16", "C20"], kind_free_text="save/load protocol model checked by TLC + validation of recorded round trips, mutated-document loads and constructor grids"),
  dict(name="num", path="spec/FP.tla spec/java/FP.java spec/DualAlgebra.tla spec/NumVM.tla spec/MC_NumVM.tla spec/MC_Layout.tla spec/Gen_NumVM.tla spec/Trace_NumVM.tla harness/src/numvm.rs lib/checks_num.py",
       serves_properties=["C01", "C02", "C03", "C17", "C18", "C19"], kind_free_text="TLA+ register machine over by-name dual numbers; rules checked against finite differences by TLC; per-instruction trace validation"),
 ]
